@@ -40,13 +40,13 @@ type cfgT struct {
 
 type memT struct {
 	ID       string    `json:"id"`
-	AgeS     int64     `json:"age_s"`    // age of _created_at at add time (negative = in the future)
-	CType    string    `json:"ctype"`    // Go type of _created_at: float64 | int | int64
-	Acc      int64     `json:"acc"`      // _access_count
-	AccType  string    `json:"acc_type"` // absent | float64 | int | int64
-	Pinned   string    `json:"pinned"`   // absent | btrue | bfalse | strue | sfalse
-	Layer    string    `json:"layer"`    // memory_layer ("" = key absent)
-	Override *string   `json:"override"` // _decay_model (nil = key absent)
+	AgeS     int64     `json:"age_s"`      // age of _created_at at add time (negative = in the future)
+	CType    string    `json:"ctype"`      // Go type of _created_at: float64 | int | int64
+	Acc      int64     `json:"acc"`        // _access_count
+	AccType  string    `json:"acc_type"`   // absent | float64 | int | int64
+	Pinned   string    `json:"pinned"`     // absent | btrue | bfalse | strue | sfalse
+	Layer    string    `json:"layer"`      // memory_layer ("" = key absent)
+	Override *string   `json:"override"`   // _decay_model (nil = key absent)
 	LastAgeS *int64    `json:"last_age_s"` // optional pre-existing _last_accessed, as an age
 	Vec      []float32 `json:"vec"`
 }
